@@ -159,15 +159,35 @@ def run(ctx):
     # only the Standard2 arm calls update_stored_tx(.., false): sinks = that call and Ok-return through it
     ff = ctx.fn(fz)
     if ff:
-        ust = [(b, t) for b, t in cfg.find_calls(ff, TX + "update_stored_tx") if vf.const_of_operand(ff, t["a"][4]) == "0"]
-        if len(ust) != 1:
-            run.error("C11.R2: send-arm update_stored_tx call not found")
+        # the send arm: the true edge of `state == Standard2`
+        SS = c.LW + "slate::SlateState"
+        arm = set()
+        for x in cfg.comparisons(ff):
+            if x.op == "Eq" and any(("agg", SS, "Standard2") in p for p in (vf.producers(ff, x.l), vf.producers(ff, x.r))):
+                arm |= x.true_edges
+        cts = [(b, t) for b, t in cfg.find_calls(ff, TX + "complete_tx") if arm and cfg.must_pass(ff, arm, {b})[0]]
+        if len(cts) != 1:
+            run.error("C11.R2: complete_tx call of the send arm (state == Standard2) not found (%d)" % len(cts))
         else:
-            sb = {ust[0][0]}
-            c.require_pass(ctx, R2, fz, VSPP, ("blocks", sb, "send-arm update_stored_tx"), "update_stored_tx (send arm) requires verify_slate_payment_proof Ok")
+            start = cts[0][1]["t"]
+            after = cfg.reach(ff, starts=[start])
+            eb = ctx.eff.effect_blocks(ff, {"store_tx", "delete_private_context"})
+            sinks = {b for b in eb if b in after}
+            vok, _n = c.guard_edges(ctx, ff, VSPP, R2)
+            par = cfg.reach(ff, starts=[start], cut_edges=vok)
+            bad = sorted(b for b in sinks if b in par)
+            held = bool(sinks) and bool(vok) and not bad
+            run.instance(R2, {"fn": "foreign::finalize_tx", "obligation": "send arm: after complete_tx, the finalized transaction is stored / the context deleted only after verify_slate_payment_proof Ok", "effect_sites": len(sinks)}, held=held)
+            if not held:
+                run.finding(Finding(R2, fz, "update_stored_tx (send arm) requires verify_slate_payment_proof Ok", site=c.site_of(ff, bad[0]) if bad else ff.loc(),
+                                    detail="a store_tx / delete_private_context effect after complete_tx is reachable without the Ok-edge of verify_slate_payment_proof"))
+            # the verifier runs after complete_tx Ok, inside the send arm
             c.require_pass(ctx, R2, fz, TX + "complete_tx", ("call", VSPP), "verify_slate_payment_proof runs after complete_tx Ok")
-            c.require_pass(ctx, R2, fz, VSPP, ("call", c.WOB + "delete_private_context"), "context deleted (send arm) only after the proof verified",
-                           exclude_blocks={b for b, t in cfg.find_calls(ff, c.WOB + "delete_private_context") if b not in cfg.reach(ff, starts=[ust[0][1]["t"]])})
+            vb = {b for b, _t in cfg.find_calls(ff, c.ok_wrappers(ctx, [VSPP]) | {VSPP})}
+            h = bool(vb) and cfg.must_pass(ff, arm, vb)[0]
+            run.instance(R2, {"fn": "foreign::finalize_tx", "obligation": "the verifier is called in the send arm"}, held=h)
+            if not h:
+                run.finding(Finding(R2, fz, "verify_slate_payment_proof is not on the send (Standard2) path", site=ff.loc()))
 
     R3 = "C11.R3"
     run.rule(R3, "exported-proof verifier: Ok needs kernel on chain and both signatures, over one message", floor=5)
@@ -284,6 +304,12 @@ def run(ctx):
         if not held:
             run.finding(Finding(R4, PPM, "payment_proof_message no longer covers all of amount/excess/sender", site=pm.loc()))
 
+    # the amount that is signed over is the wallet's own: finalize restores slate.amount from the context first
+    from .shared import amount_restored
+    amount_restored(ctx, R4)
+    ffz = ctx.fn(FOREIGN + "finalize_tx")
+    if ffz:
+        c.require_pass(ctx, R4, ffz.id, c.LW + "internal::selection::repopulate_tx", ("call", VSPP), "verify_slate_payment_proof runs after repopulate_tx Ok (slate.amount is the agreed amount)")
     R5 = "C11.R5"
     run.rule(R5, "export completeness: retrieve_payment_proof errs unless proof, excess and both signatures present", floor=4)
     rp = OWNER + "retrieve_payment_proof"
